@@ -229,6 +229,8 @@ def check_exits(ctx) -> None:
                 return OPT
             if t.endswith("OptimizationError"):
                 return default
+            if t.split(".")[-1] in STATUS_NAMES:
+                return STATUS_NAMES[t.split(".")[-1]]
             return NotImplemented
 
         def on_call(e, c: ast.Call):
@@ -245,6 +247,7 @@ def check_exits(ctx) -> None:
             return NotImplemented
 
         env = {ao.params[0]: object(), "OPTIMAL": OPT, "OPTLANG_TO_EXCEPTIONS_DICT": dict(table), "OptimizationError": default}
+        env.update(STATUS_NAMES)
         if len(ao.params) > 1:
             env[ao.params[1]] = "Optimization failed"
         try:
@@ -264,6 +267,11 @@ def check_exits(ctx) -> None:
     else:
         ctx.ok("C04.exits", ao, "status table", "returns for OPTIMAL; raises the mapped exception class, OptimizationError for a status without an entry (evaluated over 4 statuses)")
         ctx.ok("C04.exits", ao, "default class", "exception class taken from the map with OptimizationError as default")
+
+
+STATUS_NAMES = {"INFEASIBLE": "infeasible", "UNBOUNDED": "unbounded", "FEASIBLE": "feasible", "UNDEFINED": "undefined", "ABORTED": "aborted", "TIME_LIMIT": "time_limit",
+                "NODE_LIMIT": "node_limit", "ITERATION_LIMIT": "iteration_limit", "NUMERIC": "numeric", "SUBOPTIMAL": "suboptimal", "INF_OR_UNB": "infeasible_or_unbounded",
+                "MEMORY_LIMIT": "memory_limit", "LOADED": "loaded", "CUTOFF": "cutoff", "INPROGRESS": "in_progress", "INTERRUPTED": "interrupted", "SPECIAL": "check_original_solver_status"}
 
 
 class _Exc:
